@@ -370,12 +370,15 @@ class Worker:
         self._cancelled_task_ids.add(addr)
 
         # Remove all tasks that are children of `addr` from initialized tasks
-        for key, task in list(self._tasks.items()):
-            if task.is_descendant_of(addr):
-                task.cancel()
-                for mailbox_id in task.owned_mailboxes:
-                    self._mailboxes.pop(mailbox_id)
-                self._tasks.pop(key, None)
+        # The main thread may be depositing a local result and waking the
+        # waiting task; that must not observe a half-removed task.
+        with self._mailbox_mutex:
+            for key, task in list(self._tasks.items()):
+                if task.is_descendant_of(addr):
+                    task.cancel()
+                    for mailbox_id in task.owned_mailboxes:
+                        self._mailboxes.pop(mailbox_id, None)
+                    self._tasks.pop(key, None)
 
         # Remove all tasks that are children of `addr` from delayed tasks
         self._delayed_tasks = [
@@ -492,6 +495,11 @@ class Worker:
             self._conn.send((RuntimeMessage.ERROR, error_payload))
 
         finally:
+            if task.return_address not in self._tasks:
+                # The task finished or was cancelled while it was stepping;
+                # drop the mailboxes it opened after the cancel was handled.
+                for mailbox_id in task.owned_mailboxes:
+                    self._mailboxes.pop(mailbox_id, None)
             self._active_task = None
 
     def _process_await(self, task: RuntimeTask, future: RuntimeFuture) -> None:
@@ -510,7 +518,11 @@ class Worker:
 
     def _register_await(self, task: RuntimeTask, future: RuntimeFuture) -> None:
         """Mark `task` as waiting on `future`; wake it if already ready."""
-        box = self._mailboxes[future.mailbox_id]
+        box = self._mailboxes.get(future.mailbox_id)
+
+        if box is None:
+            # Dropped by a cancel handled since the caller's check
+            raise RuntimeError('Cannot await on a canceled task.')
 
         # Let the mailbox know this task is waiting
         box.dest_addr = task.return_address
@@ -567,7 +579,11 @@ class Worker:
         if task.desired_box_id is None:
             return None
 
-        box = self._mailboxes[task.desired_box_id]
+        box = self._mailboxes.get(task.desired_box_id)
+
+        if box is None:
+            # Dropped by a cancel handled since the task was dequeued
+            raise RuntimeError('Cannot await on a canceled task.')
 
         if task.wake_on_next:
             fresh_results = box.get_new_results()
@@ -576,7 +592,8 @@ class Worker:
 
         assert box.ready
         task.owned_mailboxes.remove(task.desired_box_id)
-        return self._mailboxes.pop(task.desired_box_id).result
+        self._mailboxes.pop(task.desired_box_id, None)
+        return box.result
 
     def _get_new_mailbox_id(self) -> int:
         """Return a new unique mailbox id."""
